@@ -886,7 +886,7 @@ func vC01MidCase(rnd *rand.Rand, r *Resolver, tr *vC01Trace) {
 			kinds = append(kinds, "t:no-anchor")
 		case 11: // one record altered, signature kept
 			for _, rr := range resp.Answer {
-				if a, ok := rr.(*dns.A); ok {
+				if a, ok := rr.(*dns.A); ok && dns.IsSubDomain(z.name, a.Hdr.Name) && !strings.EqualFold(a.Hdr.Name, "www.elsewhere.") {
 					a.A = []byte{203, 0, 113, 200}
 					genuine = false
 					kinds = append(kinds, "t:alter-rdata")
@@ -904,6 +904,11 @@ func vC01MidCase(rnd *rand.Rand, r *Resolver, tr *vC01Trace) {
 			}
 		}
 	}
+	// the live trust set may be gone whatever the hierarchy looks like (AutoTA cleared it): every validating path must fail closed
+	if rnd.Intn(12) == 0 && len(x.anchors) > 0 {
+		x.anchors = nil
+		kinds = append(kinds, "t:no-anchor")
+	}
 	// F9 shape: a signed zone below an insecure cut, reached on a shared server with an ancestor's DS in hand
 	if shared && z.cut == "island" && len(parentDS) > 0 {
 		x.fkeys["unsigned-ds-trust-link"] = true
@@ -918,6 +923,7 @@ func vC01MidCase(rnd *rand.Rand, r *Resolver, tr *vC01Trace) {
 	resp.CheckingDisabled = cd
 	resp.AuthenticatedData = false
 	rk := vC01RankAll(x.allRR(resp)...)
+	pristine := resp.Copy()
 	// abstraction BEFORE the call (the validators edit the response in place)
 	respCoq := x.coqMsg(resp, rk)
 	pdsCoq := x.w.coqRRs(parentDS, rk)
@@ -998,6 +1004,47 @@ func vC01MidCase(rnd *rand.Rand, r *Resolver, tr *vC01Trace) {
 		}
 	}
 	tr.emit(m)
+
+	// the same call once more with the live trust set gone: whatever the response looks like — signed,
+	// unsigned, negative, referral — a validating path must fail closed
+	if len(x.anchors) > 0 && !cd && rnd.Intn(3) == 0 {
+		saved := x.anchors
+		x.anchors = nil
+		x.install(r)
+		env2 := x.coqEnv(r, rk, resp, subject, negative || mode >= 5)
+		again := pristine.Copy()
+		var body2, k2, gf string
+		switch {
+		case mode == 9:
+			ds, err := r.validateDelegation(ctx, req, again, dns.Question{Name: z.name, Qtype: dns.TypeNS, Qclass: dns.ClassINET}, parentDS, zoneArg)
+			o := "(ODsOk " + vC01Pairs(x.w, ds) + ")"
+			if err != nil {
+				o = "(ODsFail " + vC01ErrTerm(err) + ")"
+			} else {
+				gf = "a referral was accepted without any trust anchor"
+			}
+			body2, k2 = fmt.Sprintf("CaseDeleg E %s %s %s %s %s %s", vC01Bool(cd), respCoq, x.w.name(z.name), pdsCoq, zn, o), "deleg"
+		case negative:
+			out, err := r.authority(ctx, req, again, parentDS, zoneArg)
+			if err == nil {
+				gf = "a negative answer was accepted without any trust anchor"
+			}
+			body2, k2 = fmt.Sprintf("CaseNegative E %s %d %s %s %s %s %s", qn, req.Question[0].Qtype, vC01Bool(cd), respCoq, pdsCoq, zn, vC01Obs(x.w, out, err)), "negative"
+		default:
+			out, err := r.answer(ctx, req, again, parentDS, zoneArg)
+			if err == nil {
+				gf = "an answer was accepted without any trust anchor"
+			}
+			body2, k2 = fmt.Sprintf("CaseAnswer E %s %d %s %s %s %s %s", qn, req.Question[0].Qtype, vC01Bool(cd), respCoq, pdsCoq, zn, vC01Obs(x.w, out, err)), "answer"
+		}
+		rec := map[string]any{"k": k2 + "-no-anchor:" + strings.Join(kinds, "+"), "coq": x.w.wrap(env2 + body2), "nontrivial": true, "desc": desc}
+		if gf != "" {
+			rec["go_fail"] = gf
+		}
+		tr.emit(rec)
+		x.anchors = saved
+		x.install(r)
+	}
 
 	// verifyDNSSEC on a zone's own DNSKEY answer: genuine, or with a key the DS does not vouch for doing the signing
 	if vz := x.zones[1+rnd.Intn(len(x.zones)-1)]; vz.signed && rnd.Intn(3) == 0 {
